@@ -40,8 +40,9 @@ def gen_cases(tier, seed):
     lon_shift = (seed % 8) * 3.3
     cases = []
     if tier == 'quick':
-        sites = [(-85.0, -179.5, 3000.0), (-33.0, 151.0, 20000.0), (0.0, 10.0, -500.0), (60.0, 40.0, 100.0)]
-        cruises = [(0.0, 45.0, 0.0), (300.0, 200.0, 5.0)]
+        sites = [(-85.0, -179.5, 3000.0), (-33.0, 151.0, 20000.0), (0.0, 10.0, -500.0), (60.0, 40.0, 100.0),
+                 (47.0, -179.999, 3000.0), (85.0, 151.0, 20000.0)]
+        cruises = [(0.0, 45.0, 0.0), (30.0, 45.0, -5.0), (300.0, 200.0, 5.0)]
         ldr = [0.1, 0.05, 0.025, 0.0125]
     else:
         sites = [(la, lo, al) for la in (-85.0, -33.0, 0.0, 47.0, 85.0) for lo in (-179.5, 10.0, 151.0)
